@@ -820,3 +820,38 @@ impl similar::DiffableStr for WeakStr {
         self.0.as_bytes()
     }
 }
+
+/// Counting item with a COARSE (but legal) `Hash`: only `value % 3` is fed to the hasher, so equal items
+/// hash equally and almost all unequal ones collide.  An algorithm that never hashes (Myers: only
+/// `PartialEq` is needed) must not care.
+#[derive(Debug, Clone, Copy, Eq)]
+pub struct CoarseHashElem(pub u64);
+
+impl PartialEq for CoarseHashElem {
+    #[inline]
+    fn eq(&self, other: &Self) -> bool {
+        CMP_COUNT.with(|c| c.set(c.get() + 1));
+        self.0 == other.0
+    }
+}
+
+impl PartialOrd for CoarseHashElem {
+    #[inline]
+    fn partial_cmp(&self, other: &Self) -> Option<std::cmp::Ordering> {
+        Some(self.cmp(other))
+    }
+}
+
+impl Ord for CoarseHashElem {
+    #[inline]
+    fn cmp(&self, other: &Self) -> std::cmp::Ordering {
+        CMP_COUNT.with(|c| c.set(c.get() + 1));
+        self.0.cmp(&other.0)
+    }
+}
+
+impl Hash for CoarseHashElem {
+    fn hash<H: Hasher>(&self, state: &mut H) {
+        (self.0 % 3).hash(state)
+    }
+}
